@@ -78,7 +78,10 @@ class Recorder:
         def path(I, args, kwargs, node):
             return Opaque("Path", {"arg": args[0] if args else None})
 
-        return {"numpy.zeros": zeros("zeros"), "numpy.empty": zeros("empty"), "numpy.ones": zeros("ones"), "numpy.full": zeros("full"),
+        def strof(I, args, kwargs, node):
+            return args[0] if isinstance(args[0], str) else Opaque("str", {"of": args[0]})
+
+        return {"str": strof, "numpy.zeros": zeros("zeros"), "numpy.empty": zeros("empty"), "numpy.ones": zeros("ones"), "numpy.full": zeros("full"),
                 "xarray.Dataset": dataset, "pathlib.Path": path}
 
 
@@ -162,6 +165,12 @@ def io_obligations(P):
                 tm = cd.get("time")
                 tvals = tm.items[1] if isinstance(tm, Tup) and len(tm.items) >= 2 else None
                 obs.append(req_ob("R-NC-LABELS", site, "one time label per step, in step order %s" % tag, isinstance(tvals, Tup) and len(tvals.items) == n_time))
+                if isinstance(tvals, Tup) and len(tvals.items) == n_time:
+                    for t, lab in enumerate(tvals.items):
+                        of = lab.attrs.get("of") if isinstance(lab, Opaque) and lab.name == "str" else lab
+                        okl = isinstance(of, Expr) and of.eq(alg.sym("ts_%d" % t))
+                        obs.append(req_ob("R-NC-LABELS", site, "the label of step %d is that step's own timestamp, whatever its value %s" % (t, tag), okl if (okl or isinstance(of, Expr)) else None,
+                                          detail=None if okl else "label is %s on the path %s" % (repr(of)[:80], "; ".join("%s=%s" % (d, b) for d, b in r.path)[:160]), key={"step": t}))
                 # ---- coordinates invert the solver's meshgrid convention
                 want = {"x": ("X", ("0", ":") if not is3d else ("0", "0", ":")), "y": ("Y", (":", "0") if not is3d else ("0", ":", "0"))}
                 if is3d:
